@@ -183,7 +183,12 @@ def _merge_atom_attributes_and_additional_attributes(
 ) -> None:
     for atom_index, attrs in atom_attrs.items():
         if atom_index in additional_attrs:
-            attrs |= additional_attrs[atom_index]
+            # A value of 0 on a property line means "not set" (default).
+            attrs |= {
+                key: value
+                for key, value in additional_attrs[atom_index].items()
+                if value != 0
+            }
 
 
 def _to_int(s: str) -> int:
